@@ -8,15 +8,15 @@ replay = base.s_replay
 
 def run(tier):
     if tier == "quick":
-        jobs = [chrun.SJob("vlib.sh.c11", "c11", base.parts(49), 400,
-                           what="histories of 3 operations over 7 kinds (Where with one Python function OBJECT - a one-line def - shared by all steps and used on streams of different item types, its source being recovered from the harness file; Select with lambda ASTs shared between steps - on the typed dataset the lambda has a nested "
+        jobs = [chrun.SJob("vlib.sh.c11", "c11", base.parts(36), 400,
+                           what="histories of 3 operations over 6 kinds (Where with one Python function OBJECT - a one-line def - shared by all steps and used on streams of different item types, its source being recovered from the harness file; Select with lambda ASTs shared between steps - on the typed dataset the lambda has a nested "
                                 "typed Select whose call gets a default filled in and patched back; MetaData({}); MetaData({'a':1}); QMetaData({'k':v}); "
-                                "AsAwkwardArray; execute with value_async) on a forest rooted in an untyped and a typed dataset, every parent choice; "
+                                "execute with value_async) on a forest rooted in an untyped and a typed dataset, every parent choice; "
                                 "symbolic: operation codes, parents, the metadata value; after every step the identity+structure snapshot and item type of "
                                 "every live stream must be unchanged")]
     else:
         jobs = [chrun.SJob("vlib.sh.c11", "c11t", base.parts(144), 1500,
-                           what="histories of 3 operations over 12 kinds (the 7 of the quick tier + Select with a shared Python lambda object, Where, SelectMany, Select with a history constant in the lambda, "
+                           what="histories of 3 operations over 12 kinds (the 6 of the quick tier + AsAwkwardArray + Select with a shared Python lambda object, Where, SelectMany, Select with a history constant in the lambda, "
                                 "Select building a dict/tuple), every parent choice"),
                 chrun.SJob("vlib.sh.c11", "c11k4", base.parts(125), 1500,
                            what="histories of 4 operations over 5 kinds (Select, MetaData({}), QMetaData, execute, Where with the shared one-line def), every parent choice")]
@@ -25,6 +25,6 @@ def run(tier):
                                    "the whole library path (parse, sugar, type following, fix-ups, metadata cleaning) runs traced",
                        functions=["func_adl.object_stream.ObjectStream.Select/Where/SelectMany/MetaData/QMetaData/AsAwkwardArray/value_async/clone_with_new_ast",
                                   "func_adl.ast.meta_data.remove_empty_metadata", "func_adl.type_based_replacement.remap_from_lambda/fixup_ast_from_modifications"],
-                       bounds={"history_length": 3 if tier == "quick" else 4, "op_kinds": 7 if tier == "quick" else 12, "datasets": 2},
-                       not_traced=["snapshots (node identity + field structure) and their comparison", "value() through make_sync (threads) - value_async is stepped by hand instead"])
+                       bounds={"history_length": 3 if tier == "quick" else 4, "op_kinds": 6 if tier == "quick" else 12, "datasets": 2},
+                       not_traced=["snapshots (node identity + field structure) and their comparison", "the two operations that hand over a Python function object (source recovery through inspect/tokenize; no symbolic value reaches them)", "value() through make_sync (threads) - value_async is stepped by hand instead"])
     return r.finish()
